@@ -1108,6 +1108,7 @@ class Translator:
             self.bad("Err(%r): no constructor for this message in the table" % a[1])
         if path in ("Ok", "Err") and len(args) == 1 and self.spec.get("result_enum"):
             re_ = self.spec["result_enum"]
+            if path == "Err" and re_.get("err_const"): return (re_["err_const"], re_["ty"])      # the error carries no data the model keeps
             t, ty = self.ex(args[0], env, B)
             want = re_["ok_ty" if path == "Ok" else "err_ty"]
             if ty == "lit": t = self.lit(t, "lit", want); ty = want
